@@ -1054,6 +1054,16 @@ class Walker:
                 v = kw.get("value")
                 if isinstance(v, tuple) and v and v[0] == "alloc" and v[1] == "list" and v[-1] in lists:
                     lists[v[-1]] = None
+                tg = kw.get("target")
+                if tg is not None and tg[0] == "idx" and tg[1][0] == "alloc" and tg[1][1] == "list" and tg[1][-1] in lists:
+                    # `xs[k] = v` on a list this walk knows element by element: the k-th element is v (same straight line)
+                    ent = lists[tg[1][-1]]
+                    k = tg[2]
+                    if ent is not None and k[0] == "const" and isinstance(k[1], int) and -len(ent[0]) <= k[1] < len(ent[0]) \
+                            and ent[1] == tuple(self.loopstack) and ent[2] == tuple(self.guards) and not kw.get("aug"):
+                        ent[0][k[1]] = v
+                    else:
+                        lists[tg[1][-1]] = None
         return ev
 
     def list_items(self, t: Term):
